@@ -5,9 +5,9 @@ package main
 
 import (
 	"fmt"
-	"os"
 	"go/types"
 	"math/big"
+	"os"
 	"sort"
 	"strings"
 )
@@ -27,47 +27,48 @@ type Obligation struct {
 	small    bool
 	vc       *VC
 	// results
-	Status  string // discharged | refuted | unknown | error
-	Backend string
-	Time    float64
-	Output  string
-	Model   map[string]string
-	NAssert int
-	NDecl   int
-	NValueQ int
-	hkey    string
+	Status    string // discharged | refuted | unknown | error
+	Backend   string
+	Time      float64
+	Output    string
+	Model     map[string]string
+	NAssert   int
+	NDecl     int
+	NValueQ   int
+	hkey      string
 	quickOnly bool
-	Extra   []string // extra assumptions for this obligation only (clause-level lemma use)
+	Extra     []string // extra assumptions for this obligation only (clause-level lemma use)
 }
 
 type VC struct {
-	eng      *Engine
-	unit     string
-	mode     string // "int" | "bv"
-	decls    []string
-	declared map[string]bool
-	asserts  []string
-	obls     []*Obligation
-	nfresh   int
-	strLits  map[string]string // literal -> const name
-	seenLen  map[string]bool
-	structs  map[string]bool
-	typeIDs  map[string]int
-	mathint  *types.Named
-	notes    []string // abstractions applied (for evidence)
-	noteSet  map[string]bool
-	valueQ   []string // terms to request with get-value on sat
-	valueQSet map[string]bool
-	pkg      *types.Package
-	trusted  map[string]bool
-	svSorts  map[string]string
+	eng         *Engine
+	unit        string
+	mode        string // "int" | "bv"
+	decls       []string
+	declared    map[string]bool
+	asserts     []string
+	obls        []*Obligation
+	nfresh      int
+	strLits     map[string]string // literal -> const name
+	seenLen     map[string]bool
+	structs     map[string]bool
+	typeIDs     map[string]int
+	mathint     *types.Named
+	notes       []string // abstractions applied (for evidence)
+	unbound     []string // clauses that did not bind (skipped, reported UNDECIDED)
+	noteSet     map[string]bool
+	valueQ      []string // terms to request with get-value on sat
+	valueQSet   map[string]bool
+	pkg         *types.Package
+	trusted     map[string]bool
+	svSorts     map[string]string
 	replayFrame *Frame
-	smallHints []string
-	opaque   map[string]bool
-	lemmaTerms map[string]string
-	heapTypes map[types.Type]string
-	arrTypes map[string]types.Type
-	mapTypes map[string]*types.Map
+	smallHints  []string
+	opaque      map[string]bool
+	lemmaTerms  map[string]string
+	heapTypes   map[types.Type]string
+	arrTypes    map[string]types.Type
+	mapTypes    map[string]*types.Map
 }
 
 func newVC(eng *Engine, unit, mode string, pkg *types.Package) *VC {
@@ -695,9 +696,11 @@ func (vc *VC) absIdx(slice, i string) string {
 // terms  mapsum(m, n, f)  = sum of f over the keys the n-th map range statement has produced so
 // far, and  maptotal(m, f) = sum of f over all keys of m, are uninterpreted functions of the map
 // value (and the visited set) with the defining facts of a finite sum as axioms:
-//   psum(M, {}) = 0;  psum(M, V+{k}) = psum(M, V) + f(k, M[k]) for a key k not in V;
-//   psum >= 0;  V subset of keys(M), k a key not in V  ==>  psum(M, V) + f(k, M[k]) <= total(M);
-//   V = keys(M) ==> psum(M, V) = total(M).
+//
+//	psum(M, {}) = 0;  psum(M, V+{k}) = psum(M, V) + f(k, M[k]) for a key k not in V;
+//	psum >= 0;  V subset of keys(M), k a key not in V  ==>  psum(M, V) + f(k, M[k]) <= total(M);
+//	V = keys(M) ==> psum(M, V) = total(M).
+//
 // The subset/equality facts about the visited set come from the range model (trans.go: next).
 func (vc *VC) visitedPreds(m *types.Map) (sub, full string) {
 	ms := vc.mapSort(m)
